@@ -142,13 +142,36 @@ pub fn check_domain_suffix(name: &str) -> (r: Result<()>) { unimplemented!() }
 pub fn check_hostname(hostname: &str) -> (r: Result<()>) { unimplemented!() }
 // `for x in set` (HashSet::into_iter): the elements in some order
 #[verifier::external_body]
-pub fn vx_set_into_vec<K>(s: HashSet<K>) -> (r: Vec<K>) { unimplemented!() }
+pub fn vx_set_into_vec<K>(s: HashSet<K>) -> (r: Vec<K>)
+    ensures forall|x: K| r@.contains(x) <==> s@.contains(x),
+{ unimplemented!() }
+// `match map.get_mut(&k) { Some(r) => r, None => map.entry(k).or_insert_with(DnsRegistry::new) }`: the registry of
+// that interface, created empty if there was none (entry API; assumed)
+#[verifier::external_body]
+pub fn vx_registry_or_new(m: &mut HashMap<u32, DnsRegistry>, k: u32) -> (r: &mut DnsRegistry)
+    ensures
+        old(m)@.contains_key(k) ==> *r == old(m)@[k],
+        !old(m)@.contains_key(k) ==> r.new_timers@.len() == 0,
+        final(m)@ == old(m)@.insert(k, *final(r)),
+{ unimplemented!() }
+// `for addr in intf.addrs.iter().filter(|a| a.ip().is_ipv4()/is_ipv6()) { outgoing_addrs.push(addr.ip()); }`: the list
+// only feeds the Announce monitor event
+#[verifier::external_body]
+pub fn vx_push_family_addrs(out: &mut Vec<IpAddr>, addrs: &HashSet<IfAddr>, v4: bool) { unimplemented!() }
+// `v.drain(..)` consumed by a for loop: all elements in order, the vector is left empty
+#[verifier::external_body]
+pub fn vx_drain_all(v: &mut Vec<u64>) -> (r: Vec<u64>)
+    ensures r@ == old(v)@, final(v)@.len() == 0,
+{ unimplemented!() }
 impl Zeroconf {
     // handlers that are not under contract here: assumed to keep the re-run queue acceptable and every queued
     // re-run covered by a timer (register_service queues RegisterResend re-runs with add_retransmission)
+    // interface selection (unit select) and the OS interface list
     #[verifier::external_body]
-    pub fn register_service(&mut self, info: ServiceInfo)
-        ensures queue_ok(*old(self)) ==> queue_ok(*final(self)), timers_cover(*old(self)) ==> timers_cover(*final(self)),
+    pub fn selected_intfs(&self, interfaces: Vec<Interface>) -> (r: HashSet<Interface>) { unimplemented!() }
+    #[verifier::external_body]
+    pub fn notify_monitors(&mut self, event: DaemonEvent)
+        ensures *final(self) == (Zeroconf { monitors: final(self).monitors, ..*old(self) }),
     { unimplemented!() }
     #[verifier::external_body]
     pub fn exec_command_get_metrics(&mut self, resp_s: Sender<HashMap<String, i64>>)
@@ -168,4 +191,25 @@ impl Zeroconf {
     { unimplemented!() }
     #[verifier::external_body]
     pub fn send_cmd_to_self(&self, cmd: Command) -> (r: Result<()>) { unimplemented!() }
+}
+
+#[verifier::external_body]
+pub fn my_ip_interfaces_inner(with_loopback: bool, with_apple_p2p: bool) -> (r: Vec<Interface>) { unimplemented!() }
+// proved in unit validate
+pub uninterp spec fn name_len_ok(ty_domain: Seq<char>, limit: u8) -> bool;
+#[verifier::external_body]
+pub fn check_service_name_length(ty_domain: &str, limit: u8) -> (r: Result<()>)
+    ensures r is Ok <==> name_len_ok(ty_domain@, limit),
+{ unimplemented!() }
+impl ServiceInfo {
+    pub uninterp spec fn ty(&self) -> Seq<char>;
+    #[verifier::external_body]
+    pub fn get_type(&self) -> (r: &str) ensures r@ == self.ty() { unimplemented!() }
+    #[verifier::external_body]
+    pub fn is_addr_auto(&self) -> (r: bool) { unimplemented!() }
+    // adds the interface's address to the service's address set; the name is untouched
+    #[verifier::external_body]
+    pub fn insert_ipaddr(&mut self, intf: &Interface)
+        ensures final(self).fullname() == old(self).fullname(),
+    { unimplemented!() }
 }
